@@ -81,6 +81,10 @@ def _case(pk, iname, cmd, via):
         nodes += [W.f(files_dir + '/zz', 'ZZ', 0o644, 3200),
                   W.f(real_td + '/info/zz.trashinfo', K.info_text('w/zz', '2020-01-01T00:00:00'), 0o600, 3201),
                   W.f(real_td + '/directorysizes', 'x', 0o644, 3202)]
+        # a decoy: $topdir/.Trash is a symbolic link to a sticky directory that holds a $uid directory with entries.
+        # A symlinked .Trash must not be used, so nothing behind the link may be purged (it is outside every trash dir)
+        nodes += [W.d('/v/shared', 0o1777), W.l('/v/.Trash', 'shared', 952), W.f('/v/shared/1000/files/orphan', 'DECOY-ORPHAN', 0o644, 3300)]
+        nodes += K.trashed('/v/shared/1000', 'e', 'w/e', '2019-01-01T00:00:00', 'file', 3320)
         world = W.W(mounts=K.MOUNTS, cwd='/v', nodes=nodes)
         c = CMDS[cmd]
         if c == 'empty':
